@@ -7,7 +7,16 @@
   in every context and for every grammar. (Values and label scopes are not part of this model:
   what actions see is decided by the translation-validation stream harness/cmd/pvopt, which runs
   the real optimizer.)
+
+  Second part (end of the file): a VERIFIED VALIDATOR. `Opt.validate g g' … = true` implies that the optimized grammar
+  `g'` matches exactly what `g` matches, for whole grammars with recursion, predicates, code predicates and repetition
+  (`C09_validated_output_preserves_the_language`; `Opt/Sem.lean` recognition semantics, `Opt/Nf.lean` normal form,
+  `Opt/NfSound.lean`, `Opt/Validate.lean`). The C09 check runs it on every (input, output) pair of the real
+  `ast.Optimize`: the optimizer is not trusted, each of its outputs is checked by a function whose acceptance is proved
+  to mean "same language".
 -/
+import PigeonVerif.Opt.Validate
+
 namespace PV
 namespace Peg
 
@@ -147,4 +156,57 @@ theorem C09_congr_choice (a c : List P) (p q : P) (h : p = q) : choiceP (a ++ [p
   rw [h]
 
 end Peg
+
+/-! ### the verified validator of the optimizer's output -/
+
+namespace Opt
+
+/-- **C09, language clause, for every output the validator accepts.** `g`: the grammar before `-optimize-grammar`, `g'`:
+    what the optimizer made of it, `names`: the rules of `g'`. If the rules of `names` have syntactically equal normal
+    forms in `g` and `g'` (`validate`; the normal form unfolds the rules selected by `inl` `k` levels deep, splices nested
+    sequences and choices, concatenates adjacent literals, unites adjacent one-rune literals and non-inverted classes of a
+    choice, drops one-element sequences and choices, and lists class members sorted without repetition — every step a
+    proved equivalence), then each of these rules, started on any input, fails in `g'` iff it fails in `g` and succeeds
+    in `g'` iff it succeeds in `g`, consuming the same prefix — under every case folding, every meaning of ranges and
+    Unicode classes and every outcome of the code predicates (as functions of the block and the remaining input).
+    Not in the semantics (so not covered): values and label scopes (actions, labels and state blocks are transparent),
+    throw / recover (treated as failing / transparent: grammars with them are outside the theorem), and grammars on
+    which some evaluation does not terminate are compared on their terminating runs only. -/
+theorem C09_validated_output_preserves_the_language (S : Sem) (g g' : Gram) (inl inl' : String → Bool) (k : Nat)
+    (names : List String) (h : validate g g' inl inl' k names = true) (n : String) (hn : n ∈ names) (i : List Rune)
+    (r : Res) (hr : r ≠ .oof) :
+    (∃ f, den S g f (.ref n) i = r) ↔ (∃ f, den S g' f (.ref n) i = r) :=
+  validate_sound S h n hn i r hr
+
+/-- the normal form itself never changes what an expression matches (same grammar; forward with the same depth) -/
+theorem C09_normal_form_is_sound (S : Sem) (g : Gram) (inl : String → Bool) (k : Nat) (e : OE) (i : List Rune) (r : Res)
+    (hr : r ≠ .oof) : (∃ f, den S g f e i = r) ↔ (∃ f, den S g f (nfK g inl k e) i = r) := by
+  constructor
+  · rintro ⟨f, hf⟩
+    exact ⟨f, by rw [(nfK_sound S g inl k).1 f e i (by rw [hf]; exact hr), hf]⟩
+  · rintro ⟨f, hf⟩
+    obtain ⟨f', h'⟩ := (nfK_sound S g inl k).2 e f i (by rw [hf]; exact hr)
+    exact ⟨f', by rw [h', hf]⟩
+
+namespace Example
+
+/-- `A <- B "c" / [x-z] / "w" ; B <- "a" ("b")` optimizes to `A <- "abc" / [x-zw]` (B inlined and removed) -/
+def before : Gram :=
+  [("A", .choice [.seq [.ref "B", .lit [99] false], .cls [] [(120, 122)] [] false false, .lit [119] false]),
+   ("B", .seq [.lit [97] false, .seq [.lit [98] false]])]
+def after : Gram := [("A", .choice [.lit [97, 98, 99] false, .cls [119] [(120, 122)] [] false false])]
+
+theorem accepted : validate before after (fun n => n == "B") (fun n => n == "B") 2 ["A"] = true := by decide
+
+/-- merging the literal with an INVERTED class is not accepted -/
+def afterBad : Gram := [("A", .choice [.lit [97, 98, 99] false, .cls [119] [(120, 122)] [] false true])]
+theorem rejected : validate before afterBad (fun n => n == "B") (fun n => n == "B") 2 ["A"] = false := by decide
+
+example (S : Sem) (i : List Rune) (r : Res) (hr : r ≠ .oof) :
+    (∃ f, den S before f (.ref "A") i = r) ↔ (∃ f, den S after f (.ref "A") i = r) :=
+  C09_validated_output_preserves_the_language S _ _ _ _ _ _ accepted "A" (by simp) i r hr
+
+end Example
+
+end Opt
 end PV
